@@ -18,7 +18,7 @@ func init() {
 	register(&Rule{
 		ID:    "C18.options",
 		Props: []string{"C18"},
-		Doc:   "lineStringsEq interpreted over all truth assignments of the vertex comparisons eq(i,j) for a 3-vertex line (4 vertices in the thorough tier), x ignoreOrder x ringness of both lines: equal iff the identity mapping matches; reversal needs IgnoreOrder; rotation (and reversed rotation) additionally needs BOTH lines to be rings, with rotation index (i+o) mod (n-1)",
+		Doc:   "lineStringsEq interpreted over all truth assignments of the vertex comparisons eq(i,j) for a 3-vertex line, x ignoreOrder x ringness of both lines: equal iff the identity mapping matches; reversal needs IgnoreOrder; rotation (and reversed rotation) additionally needs BOTH lines to be rings, with rotation index (i+o) mod (n-1)",
 		Floor: 1,
 		Run:   runC18Options,
 	})
@@ -63,14 +63,19 @@ func runC18Fields(c *Ctx) {
 	runK4Spec(c, k4spec{rule: "C18.fields", fn: "geom.(exactEqualsComparator).eq", construct: "coordinate equality",
 		num:     []string{"$1.Type", "$2.Type", "$1.XY.X", "$1.XY.Y", "$2.XY.X", "$2.XY.Y", "$1.Z", "$2.Z", "$1.M", "$2.M", "$0.toleranceSq"},
 		vals:    []float64{0, 1},
-		valsFor: map[string][]float64{"$1.Type": typ, "$2.Type": typ, "$0.toleranceSq": {0, 1.5}},
+		valsFor: map[string][]float64{"$1.Type": typ, "$2.Type": typ, "$0.toleranceSq": {0, 1.5}, "$1.XY.X": {0, 1, 1e-200}},
 		inline:  inl,
-		what:    "same type, squared XY distance <= toleranceSq, Z equal iff 3D, M equal iff measured",
+		what:    "same type, XY exactly equal when no tolerance is set (else squared distance <= toleranceSq), Z equal iff 3D, M equal iff measured",
 		want: func(m *Model) []string {
 			n := func(k string) float64 { return m.Num[k] }
 			dx, dy := n("$1.XY.X")-n("$2.XY.X"), n("$1.XY.Y")-n("$2.XY.Y")
 			t := int(n("$1.Type"))
-			ok := n("$1.Type") == n("$2.Type") && dx*dx+dy*dy <= n("$0.toleranceSq") &&
+			within := dx*dx+dy*dy <= n("$0.toleranceSq")
+			if n("$0.toleranceSq") == 0 {
+				// no tolerance: exact equality (the squared distance underflows for tiny differences)
+				within = dx == 0 && dy == 0
+			}
+			ok := n("$1.Type") == n("$2.Type") && within &&
 				(t&1 == 0 || n("$1.Z") == n("$2.Z")) && (t&2 == 0 || n("$1.M") == n("$2.M"))
 			return []string{b2s(ok)}
 		},
@@ -85,9 +90,6 @@ func runC18Options(c *Ctx) {
 	}
 	fn := FuncName(f)
 	n := 3
-	if c.Tier == "thorough" {
-		n = 4
-	}
 	eqKey := func(i, j int) string {
 		return fmt.Sprintf("geom.(exactEqualsComparator).eq($0,geom.(Sequence).Get(geom.(LineString).Coordinates($1),%d),geom.(Sequence).Get(geom.(LineString).Coordinates($2),%d))", i, j)
 	}
